@@ -386,6 +386,8 @@ func (in *Interp) external(act *activation, b *ssa.BasicBlock, site token.Pos, n
 		res.Mixed = false
 		return res
 	case "bits.ToBinary":
+		// bits.ToBinary(api, v, opts...) constrains v = Σ b_i 2^i with boolean b_i — unless an option removes the
+		// booleanity constraints (WithUnconstrainedOutputs) or is not understood: only WithNbDigits keeps it a sink.
 		r := &Rec{Kind: "tobin", Site: site}
 		if len(args) > 1 {
 			r.Args = []*Val{args[1]}
@@ -394,6 +396,8 @@ func (in *Interp) external(act *activation, b *ssa.BasicBlock, site token.Pos, n
 			for _, o := range in.varargs(args[2]) {
 				if o != nil && o.Ex != nil && o.Ex.Op == "bits.WithNbDigits" && len(o.Ex.Args) > 0 {
 					r.Width = o.Ex.Args[0]
+				} else {
+					r.Kind = "tobin-unconstrained"
 				}
 			}
 		}
